@@ -269,4 +269,18 @@ PROPS = {
                  thorough=dict(checks=6000, shards=16, budget_s=3300, shrink="2m")),
         ],
     ),
+    "C08": dict(
+        level="exploration",
+        text="Exploration by grammar-based generated search: concurrent control sessions send generated request lines (every built-in command with field-type substitutions, odd unit IDs incl. "
+             "on-disk-only and path-like ones, malformed JSON, binary and over-long lines, disconnects) to an in-process node inside a crash-contained process; each line carries a by-construction "
+             "label, invalid lines must be answered by an ERROR line, every request must be answered in time, and a fresh session must get 'status' and 'work list' answered afterwards.",
+        note="Trusted: the by-construction labels of the grammar (lines whose validity is debatable are labelled 'any answer'). The node is hosted in-process; the kubernetes and python work types are not loaded.",
+        technique="grammar-based property testing (rapid) with process-level crash containment; oracle = ERROR-reply rule + liveness probes on fresh sessions",
+        assumptions=["reply deadline 20 s (ping may take 10 s by design), probe deadline 5 s"],
+        parts=[
+            part("control", "workprops", "TestC08", "C08",
+                 quick=dict(checks=240, shards=8, budget_s=480),
+                 thorough=dict(checks=8000, shards=16, budget_s=3300, shrink="3m")),
+        ],
+    ),
 }
